@@ -52,6 +52,7 @@ type Scenario struct {
 	WriteLagUs  int64       `json:"write_lag_us,omitempty"` // virtual duration of each WriteTo call
 	Reuse       int         `json:"reuse,omitempty"`        // udp/tcp: run the same configuration value this many times in a row
 	ReuseFrom   string      `json:"reuse_from,omitempty"`   // with Reuse: the earlier runs go to this address; the value's Target field is then set to Target for the last run
+	ReusePort   int         `json:"reuse_port,omitempty"`   // with Reuse: the earlier runs go to this port (0 = the scenario's)
 	earlier     []earlierRun
 }
 
@@ -141,7 +142,11 @@ func callEntry(ctx context.Context, sc *Scenario, target netip.AddrPort) (*resul
 		if sc.ReuseFrom != "" && sc.Reuse > 1 {
 			first = netip.MustParseAddr(sc.ReuseFrom)
 		}
-		u := udp.NewUDPv4(net.IP(first.AsSlice()), target.Port(), uint8(sc.MinTTL), uint8(sc.MaxTTL), sc.Delay(), sc.Timeout(), false)
+		firstPort := target.Port()
+		if sc.ReusePort != 0 && sc.Reuse > 1 {
+			firstPort = uint16(sc.ReusePort)
+		}
+		u := udp.NewUDPv4(net.IP(first.AsSlice()), firstPort, uint8(sc.MinTTL), uint8(sc.MaxTTL), sc.Delay(), sc.Timeout(), false)
 		u.LoosenICMPSrc = !sc.Strict
 		// Reuse: the same configuration value is run several times in a row (the library's config structs are
 		// plain values with a Traceroute method); the earlier results are kept in sc.earlier
@@ -149,20 +154,24 @@ func callEntry(ctx context.Context, sc *Scenario, target netip.AddrPort) (*resul
 			r, err := u.Traceroute()
 			sc.earlier = append(sc.earlier, earlierRun{r, err})
 		}
-		u.Target = net.IP(target.Addr().AsSlice())
+		u.Target, u.TargetPort = net.IP(target.Addr().AsSlice()), target.Port()
 		return u.Traceroute()
 	case "tcp", "tcp-paris":
 		first := target.Addr()
 		if sc.ReuseFrom != "" && sc.Reuse > 1 {
 			first = netip.MustParseAddr(sc.ReuseFrom)
 		}
-		t := tcp.NewTCPv4(net.IP(first.AsSlice()), target.Port(), uint8(sc.MinTTL), uint8(sc.MaxTTL), sc.Delay(), sc.Timeout(), sc.Variant == "tcp-paris", false)
+		firstPort := target.Port()
+		if sc.ReusePort != 0 && sc.Reuse > 1 {
+			firstPort = uint16(sc.ReusePort)
+		}
+		t := tcp.NewTCPv4(net.IP(first.AsSlice()), firstPort, uint8(sc.MinTTL), uint8(sc.MaxTTL), sc.Delay(), sc.Timeout(), sc.Variant == "tcp-paris", false)
 		t.LoosenICMPSrc = !sc.Strict
 		for i := 1; i < sc.Reuse; i++ {
 			r, err := t.Traceroute()
 			sc.earlier = append(sc.earlier, earlierRun{r, err})
 		}
-		t.Target = net.IP(target.Addr().AsSlice())
+		t.Target, t.DestPort = net.IP(target.Addr().AsSlice()), target.Port()
 		return t.Traceroute()
 	case "sack":
 		hs := time.Duration(sc.HandshakeMs) * time.Millisecond
